@@ -35,6 +35,19 @@ def gen_base(seed, i):
         w = g.workflow("m1")
     if rng.chance(1, 2):
         w["env"] = {"e1": rng.below(9)}
+    if i % 4 == 1:
+        # generators: their acts are nodes that exist only at run time
+        def walk(steps):
+            for st in steps:
+                for a in st.get("acts", []):
+                    if a["uses"] == gen.IRQ and "catches" not in a and rng.chance(1, 2):
+                        a["uses"] = rng.pick(["acts.core.parallel", "acts.core.sequence"])
+                        key = a.pop("key")
+                        a["params"] = {"in": [f"u{q}" for q in range(rng.range(0, 3))],
+                                       "acts": [{"uses": gen.IRQ, "key": "g" + key}] + ([{"uses": gen.MSG, "key": "h" + key}] if rng.chance(1, 3) else [])}
+                for b in st.get("branches", []):
+                    walk(b.get("steps", []))
+        walk(w["steps"])
     ops = [["deploy", 0], ["start", "m1", {"pid": "p1", "x": rng.below(4), "y": rng.below(4)}], ["runall"]]
     for _ in range(rng.range(4, 10)):
         r = rng.below(100)
